@@ -54,7 +54,9 @@ def entries(pym, seed, thorough=False):
                     out.append(r.standard_normal(np.shape(x)) if np.ndim(x) else float(r.standard_normal()))
             return out
         E.append(dict(name=name, cfg=cfg, build=build, dirs=dirs or default_dirs, freeze=freeze, tol=tol,
-                      linear=linear, ins=ins, h=h, rep_of=rep_of))
+                      linear=linear, ins=ins, h=h, rep_of=rep_of, mk=mk, nout=nout,
+                      # tolerance for comparing two evaluations of the same configuration (ARPACK starts from a random vector)
+                      xtol=1e-4 if (name == 'EigenSolve' and 'sparse' in str(cfg.get('kind', ''))) else 1e-9))
         # the same entry with Fortran-ordered dense matrix inputs (memory layout must not matter)
         if any(isinstance(x, np.ndarray) and x.ndim == 2 and x.shape[0] > 1 and x.shape[1] > 1 for x in ins) and not cfg.get('_layout'):
             insF = [np.asfortranarray(x) if isinstance(x, np.ndarray) and x.ndim == 2 else x for x in ins]
@@ -343,6 +345,130 @@ def entries(pym, seed, thorough=False):
             add('EigenSolve', dict(n=ns, kind='sparse symmetric' + (' generalized' if withB else ''), **kw),
                 lambda si, so, kw=kw: pym.EigenSolve(si, so, hermitian=True, **kw), insx, nout=2,
                 dirs=(lambda r, withB=withB: [sdirs(r), 0.2 * sdirs(r)] if withB else [sdirs(r)]), tol=1e-4, h=1e-4)
+        linsys_options()
+
+    def linsys_options():
+        """every public constructor option of the linear-system modules (LinSolve: use_lda_solver False/True, explicit
+        solver=, hermitian= / symmetric= flags, dep_tol; SystemOfEquations: free / prescribed given alone or together and
+        the LinSolve keywords passed through; StaticCondensation: LinSolve keywords) x every matrix class x storage.
+        Appended after the older entries so that their random stream is unchanged."""
+        S = pym.solvers
+        n = int(rng.integers(3, 6))
+        R = lambda *s: rng.standard_normal(s)
+        sym = lambda M_: M_ + M_.T
+        M0 = R(n, n)
+        spd_ = M0 @ M0.T + n * np.eye(n)
+        kinds = {
+            'spd': (spd_, 'sym'),
+            'symmetric indefinite': (sym(R(n, n)) + np.diag([(-1.0) ** i * 2 * n for i in range(n)]), 'sym'),
+            'general': (R(n, n) + n * np.eye(n), 'gen'),
+            'complex symmetric': (spd_ + 0.3j * sym(R(n, n)), 'csym'),
+            'hermitian': (spd_ + 0.3j * (lambda M_: M_ - M_.T)(R(n, n)), 'herm'),
+            'complex general': (R(n, n) + n * np.eye(n) + 1j * R(n, n), 'cgen'),
+        }
+
+        def mdir(r, cls, A, sparse_):
+            if cls == 'sym':
+                D = sym(r.standard_normal(A.shape))
+            elif cls == 'gen':
+                D = r.standard_normal(A.shape)
+            elif cls == 'csym':
+                D = sym(r.standard_normal(A.shape)) + 1j * sym(r.standard_normal(A.shape))
+            elif cls == 'herm':
+                D = sym(r.standard_normal(A.shape)) + 1j * (lambda M_: M_ - M_.T)(r.standard_normal(A.shape))
+            else:
+                D = r.standard_normal(A.shape) + 1j * r.standard_normal(A.shape)
+            return sps.csc_matrix(D) if sparse_ else D
+
+        def lin(label, cls, A, sparse_, nrhs, kwf, lda, linear=True, tol=2e-6):
+            cplx = np.iscomplexobj(A)
+            b = R(n) if nrhs is None else R(n, nrhs)
+            if cplx:
+                b = b + 1j * (R(n) if nrhs is None else R(n, nrhs))
+            Ain = sps.csc_matrix(A) if sparse_ else A.copy()
+
+            def mk(si, so, kwf=kwf, lda=lda):
+                m = pym.LinSolve(si, so, **kwf())      # solver objects are created per instance
+                if lda is not None:
+                    m.use_lda_solver = lda             # documented attribute
+                return m
+            cfg = dict(n=n, kind=('sparse ' if sparse_ else 'dense ') + label, nrhs=nrhs, options=str(sorted(
+                (k, type(v).__name__ if hasattr(v, 'solve') else v) for k, v in kwf().items())), use_lda_solver=lda)
+            add('LinSolve', cfg, mk, [Ain, b], linear=[[1]] if linear else False, tol=tol,
+                dirs=lambda r, A=A, b=b, cls=cls, sparse_=sparse_: [mdir(r, cls, A, sparse_), r.standard_normal(b.shape) + (
+                    1j * r.standard_normal(b.shape) if np.iscomplexobj(b) else 0)])
+        k = 0
+        for label, (A, cls) in kinds.items():
+            herm = cls in ('sym', 'herm')
+            symm = cls in ('sym', 'csym')
+            for sparse_ in (False, True):
+                k += 1
+                # the wrapper switched off: the seed / right-hand side goes to the factorisation routines directly
+                lin(label, cls, A, sparse_, None, lambda: {}, False)
+                lin(label, cls, A, sparse_, 2, lambda: {}, False, linear=False)
+                # truthful flags (skip the automatic detection), a dependency tolerance
+                lin(label, cls, A, sparse_, None if k % 2 else 2, lambda herm=herm, symm=symm: dict(hermitian=herm, symmetric=symm), None)
+                lin(label, cls, A, sparse_, 2 if k % 2 else None, lambda herm=herm: dict(hermitian=herm, dep_tol=1e-8), k % 2 == 0, linear=False)
+            # explicit solvers
+            for j, (sname, ok, kw) in enumerate((('SolverDenseLU', True, {}), ('SolverDenseQR', True, {}),
+                                                 ('SolverDenseCholesky', cls == 'herm' or label == 'spd', {}),
+                                                 ('SolverDenseLDL', cls in ('sym', 'herm', 'csym'), dict(hermitian=herm)))):
+                if ok:
+                    lin(label, cls, A, False, (None, 2)[(j + k) % 2], lambda sname=sname, kw=kw: dict(solver=getattr(S, sname)(**kw)), (False, None)[j % 2],
+                        linear=(j % 2 == 0))
+                    lin(label, cls, A, False, (2, None)[(j + k) % 2], lambda sname=sname, kw=kw: dict(solver=getattr(S, sname)(**kw)), (None, False)[j % 2],
+                        linear=False)
+            lin(label, cls, A, True, None, lambda: dict(solver=S.SolverSparseLU()), False, linear=False)
+            lin(label, cls, A, True, 2, lambda: dict(solver=S.SolverSparseLU()), None, linear=False)
+            if label == 'spd' or cls == 'herm':
+                for sparse_ in (False, True):
+                    lin(label, cls, A, sparse_, None if sparse_ else 2, lambda: dict(solver=S.CG(tol=1e-13)), (False, None)[int(sparse_)], linear=False, tol=5e-6)
+        # SystemOfEquations: index sets given alone / together, LinSolve keywords passed through, complex symmetric system
+        n2 = int(rng.integers(4, 7))
+        perm = rng.permutation(n2)
+        npre = int(rng.integers(1, n2 - 1))
+        pre, free = np.sort(perm[:npre]), np.sort(perm[npre:])
+        M2 = R(n2, n2)
+        Ks = M2 @ M2.T + n2 * np.eye(n2)
+        Kc = Ks + 0.3j * sym(R(n2, n2))
+
+        def sdir(r, cplx, sparse_):
+            D = sym(r.standard_normal((n2, n2)))
+            if cplx:
+                D = D + 1j * sym(r.standard_normal((n2, n2)))
+            return sps.csc_matrix(D) if sparse_ else D
+        for j, (label, Kin, kwf) in enumerate((
+                ('free only', sps.csc_matrix(Ks), lambda: dict(free=free)),
+                ('prescribed only', sps.csc_matrix(Ks), lambda: dict(prescribed=pre)),
+                ('hermitian=True', sps.csc_matrix(Ks), lambda: dict(free=free, prescribed=pre, hermitian=True)),
+                ('symmetric=True dense', Ks.copy(), lambda: dict(free=free, prescribed=pre, symmetric=True)),
+                ('solver=SolverSparseLU', sps.csc_matrix(Ks), lambda: dict(free=free, prescribed=pre, solver=S.SolverSparseLU())),
+                ('solver=SolverDenseLU dense', Ks.copy(), lambda: dict(free=free, prescribed=pre, solver=S.SolverDenseLU())),
+                ('solver=SolverDenseQR dense', Ks.copy(), lambda: dict(prescribed=pre, solver=S.SolverDenseQR())),
+                ('complex symmetric sparse', sps.csc_matrix(Kc), lambda: dict(free=free, prescribed=pre)),
+                ('complex symmetric dense', Kc.copy(), lambda: dict(free=free)))):
+            cplx = np.iscomplexobj(Kin.toarray() if sps.issparse(Kin) else Kin)
+            nrhs = None if j % 2 == 0 else 2
+            bf = R(len(free)) if nrhs is None else R(len(free), nrhs)
+            xp = R(len(pre)) if nrhs is None else R(len(pre), nrhs)
+            if cplx:
+                bf = bf + 1j * R(*bf.shape)
+                xp = xp + 1j * R(*xp.shape)
+            add('SystemOfEquations', dict(n=n2, npre=npre, nrhs=nrhs, options=label),
+                lambda si, so, kwf=kwf: pym.SystemOfEquations(si, so, **kwf()), [Kin, bf, xp], nout=2,
+                dirs=lambda r, bf=bf, xp=xp, cplx=cplx, sp_=sps.issparse(Kin): [sdir(r, cplx, sp_)] + [
+                    r.standard_normal(v.shape) + (1j * r.standard_normal(v.shape) if cplx else 0) for v in (bf, xp)],
+                linear=[[1, 2]])
+        nm = int(rng.integers(1, n2 - 1))
+        main, rest = np.sort(perm[:nm]), np.sort(perm[nm:])
+        for label, Kin, kwf in (('hermitian=True', sps.csc_matrix(Ks), lambda: dict(hermitian=True)),
+                                ('symmetric=True dense', Ks.copy(), lambda: dict(symmetric=True)),
+                                ('solver=SolverDenseLU dense', Ks.copy(), lambda: dict(solver=S.SolverDenseLU())),
+                                ('solver=SolverSparseLU complex symmetric', sps.csc_matrix(Kc), lambda: dict(solver=S.SolverSparseLU()))):
+            cplx = np.iscomplexobj(Kin.toarray() if sps.issparse(Kin) else Kin)
+            add('StaticCondensation', dict(n=n2, nmain=nm, options=label),
+                lambda si, so, kwf=kwf: pym.StaticCondensation(si, so, main=main, free=rest, **kwf()), [Kin],
+                dirs=lambda r, cplx=cplx, sp_=sps.issparse(Kin): [sdir(r, cplx, sp_)])
     reps = 3 if thorough else 1
     for _ in range(reps):
         one_rep()
@@ -442,6 +568,91 @@ def _column_masks(outs, rng):
     return ma, mb
 
 
+def output_subsets(nout):
+    """all non-empty subsets of the outputs (singletons and the full set only when there are more than 3 outputs)"""
+    if nout <= 3:
+        return [frozenset(j for j in range(nout) if (mask >> j) & 1) for mask in range(1, 2 ** nout)]
+    return [frozenset([j]) for j in range(nout)] + [frozenset(range(nout))]
+
+
+def pair_covering_sequence(k):
+    """a sequence over range(k) in which every ordered pair (a, b), a == b included, occurs as two consecutive items
+    (de Bruijn sequence B(k, 2), opened up): k*k + 1 items"""
+    if k == 1:
+        return [0, 0]
+    a = [0] * (k * 2)
+    seq = []
+
+    def db(t, p):
+        if t > 2:
+            if 2 % p == 0:
+                seq.extend(a[1:p + 1])
+        else:
+            a[t] = a[t - p]
+            db(t + 1, p)
+            for j in range(a[t - p] + 1, k):
+                a[t] = j
+                db(t + 1, t)
+    db(1, 1)
+    return seq + seq[:1]
+
+
+def seed_layouts(w):
+    """the same seed values in every memory layout a caller may hand over: C, Fortran, a strided view into a larger
+    buffer, a negative-stride view, a transposed view; returns {label: (array, owner buffer)}"""
+    w = np.asarray(w)
+    if w.ndim == 0:
+        return {}
+    out = {}
+    if w.ndim == 1:
+        big = np.full(w.size * 2 + 1, 7.25, dtype=w.dtype)
+        big[1::2] = w
+        out['strided view (step 2)'] = (big[1::2], big)
+        rev = np.ascontiguousarray(w[::-1])
+        out['negative stride'] = (rev[::-1], rev)
+        col = np.full((w.size, 3), -3.5, dtype=w.dtype, order='C')
+        col[:, 1] = w
+        out['column of a C matrix'] = (col[:, 1], col)
+    else:
+        f = np.asfortranarray(w).copy(order='F')
+        out['Fortran order'] = (f, f)
+        t = np.ascontiguousarray(np.swapaxes(w, 0, -1))
+        out['transposed view'] = (np.swapaxes(t, 0, -1), t)
+        big = np.full(tuple(2 * n_ + 1 for n_ in w.shape), 7.25, dtype=w.dtype)
+        sl = tuple(slice(1, None, 2) for _ in w.shape)
+        big[sl] = w
+        out['strided view (step 2)'] = (big[sl], big)
+        bigf = np.full((w.shape[0] + 2,) + w.shape[1:], -3.5, dtype=w.dtype, order='F')
+        bigf[1:-1] = w
+        out['rows of a Fortran matrix'] = (bigf[1:-1], bigf)
+    return out
+
+
+def linsolve_with_options(pym, sig_in, sig_out, k, A):
+    """LinSolve on a dense real matrix with the k-th of its public option sets (use_lda_solver on/off, explicit solver=,
+    truthful hermitian=/symmetric= flags, dep_tol); returns (module, label)"""
+    S = pym.solvers
+    issym = bool(np.array_equal(A, A.T))
+    opts = [(dict(), None, 'default'), (dict(), False, 'use_lda_solver=False'),
+            (dict(solver=S.SolverDenseLU()), False, 'solver=SolverDenseLU, use_lda_solver=False'),
+            (dict(solver=S.SolverDenseQR()), None, 'solver=SolverDenseQR'),
+            (dict(hermitian=issym, symmetric=issym), None, 'hermitian=/symmetric= flags'),
+            (dict(solver=S.SolverDenseLU()), None, 'solver=SolverDenseLU'),
+            (dict(dep_tol=1e-8), False, 'dep_tol, use_lda_solver=False'),
+            (dict(solver=S.SolverDenseQR()), False, 'solver=SolverDenseQR, use_lda_solver=False')]
+    kw, lda, label = opts[k % len(opts)]
+    m = pym.LinSolve(sig_in, sig_out, **kw)
+    if lda is not None:
+        m.use_lda_solver = lda
+    return m, label
+
+
+def seed_in_layout(w, k):
+    """a copy of the values of w in the k-th memory layout (contiguous first)"""
+    lay = [w.copy()] + [v[0] for _, v in sorted(seed_layouts(w).items())]
+    return lay[k % len(lay)]
+
+
 def adjoint_check(entry, pym, rng, seed_kind='full', dyad_seed=False, reseed=False):
     """returns dict(ok, an, fd, err, detail) for one zoo entry, one seed set and one direction set.
     reseed=True: the module first backpropagates a seed supported on a random subset of the output columns, is reset,
@@ -489,6 +700,27 @@ def adjoint_check(entry, pym, rng, seed_kind='full', dyad_seed=False, reseed=Fal
         scale = max(abs(an), abs(fd), 1e-3 * sum(float(np.sum(np.abs(dense(s.state)))) for s in outs) + 1e-12)
         return an, fd, abs(an - fd) / scale
 
+    if seed_kind == 'subsets':
+        # every non-empty subset of the outputs is seeded (the others stay None) in ONE history on one instance that
+        # contains every ordered pair of subsets (reset() between the passes; compare() re-evaluates the response in
+        # between as well): every pass must give the adjoint for ITS seeds, whatever was seeded before
+        subs = output_subsets(len(outs))
+        worst = dict(ok=True, an=0.0, fd=0.0, err=0.0, seed_kind='subsets', dyad_seed=dyad_seed)
+        prev = None
+        for k in pair_covering_sequence(len(subs)):
+            S = subs[k]
+            full = make_seeds(outs, rng, pym, 'full')
+            seeds = install([w if j in S else None for j, w in enumerate(full)])
+            m.sensitivity()
+            an, fd, err = compare(seeds, ubase)
+            if err > worst['err']:
+                worst = dict(ok=bool(err <= entry['tol']), an=an, fd=fd, err=err, dyad_seed=dyad_seed,
+                             seed_kind=f'subsets: outputs {sorted(S)} seeded (others None) after a pass that seeded {prev}, reset() in between')
+            if not worst['ok']:
+                return worst
+            prev = sorted(S)
+            m.reset()
+        return worst
     if not reseed:
         seeds = install(make_seeds(outs, rng, pym, seed_kind))
         m.sensitivity()
@@ -561,6 +793,124 @@ def close(a, b, tol=1e-9):
     return bool(np.max(np.abs(a - b), initial=0) <= tol * sc)
 
 
+def seed_change_detail(before, outs):
+    """what happened to the seeds: number of changed entries and whether every changed entry is now exactly zero"""
+    nchg, only_zeroed = 0, True
+    for a, s in zip(before, outs):
+        b = snapshot(s.sensitivity)
+        if a is None or b is None or a[1].shape != b[1].shape:
+            return dict(changed='type or shape', only_zeroed=False)
+        chg = a[1] != b[1]
+        nchg += int(np.sum(chg))
+        only_zeroed = only_zeroed and bool(np.all(b[1][chg] == 0))
+    return dict(changed=nchg, only_zeroed=only_zeroed)
+
+
+def _sens_snap(sig):
+    return [snapshot(s.sensitivity) for s in sig]
+
+
+def seed_layout_check(entry, pym, w_ref, g_ref):
+    """the caller-owned seed arrays in every memory layout (1-D, C, Fortran, strided / negative-stride / transposed
+    views): the added sensitivities are those of the contiguous copy (g_ref), the seed array AND the buffer it lives in
+    are unchanged after one and after two sensitivity() calls, and the second call adds the same contribution"""
+    fails = []
+    lay = [seed_layouts(w) if w is not None else {} for w in w_ref]
+    labels = sorted(set(k for d in lay for k in d))
+    for lab in labels:
+        m, ins, outs = entry['build']()
+        m.response()
+        if entry['freeze']:
+            entry['freeze'](m)
+        owners = []
+        for s, w, d in zip(outs, w_ref, lay):
+            if lab in d:
+                arr, own = d[lab]
+                owners.append((own, own.copy()))
+                s.sensitivity = arr
+            else:
+                s.sensitivity = _c(w)
+        sd0 = _sens_snap(outs)
+        m.sensitivity()
+        g1 = _sens_snap(ins)
+        for a, b in zip(g_ref, g1):
+            if (a is None) != (b is None) or (a is not None and not close(a, b, entry.get('xtol', 1e-9))):
+                fails.append(('the added sensitivities are a function of the seed values (independent of the memory layout of the seed array)', dict(layout=lab)))
+                break
+        m.sensitivity()
+        g2 = _sens_snap(ins)
+        for a, b in zip(g1, g2):
+            if a is None and b is None:
+                continue
+            if a is None or b is None or not close(('ar', 2 * a[1]), b):
+                fails.append(('second sensitivity() adds the same contribution', dict(seed_layout=lab)))
+                break
+        if any(not same(a, snapshot(s.sensitivity)) for a, s in zip(sd0, outs)) or any(not np.array_equal(o, o0) for o, o0 in owners):
+            fails.append(('sensitivity() writes only sensitivities of the module inputs (seed unchanged)', dict(seed_layout=lab, **seed_change_detail(sd0, outs))))
+        if fails:
+            break
+    return fails
+
+
+def seed_support_sequences(entry, pym, rng):
+    """modules with several outputs: every non-empty subset of outputs seeded (the others None), in one history on ONE
+    instance that contains every ordered pair of subsets; with reset() between the passes every pass must add exactly
+    what a fresh instance adds for the same seeds (the sensitivities are a function of the CURRENT seeds, None = zero),
+    an occasional response() in between changes nothing, and without reset the contributions add up"""
+    fails = []
+    nout = entry.get('nout', 1)
+    if nout < 2:
+        return fails
+    tol = max(entry.get('xtol', 1e-9), 1e-9)
+    subs = output_subsets(nout)
+    m0, ins0, outs0 = entry['build']()
+    m0.response()
+    full = make_seeds(outs0, rng, pym)
+
+    def seed(outs, S, fac=1.0):
+        for j, s in enumerate(outs):
+            s.sensitivity = (_c(full[j]) * fac) if j in S else None
+    ref = {}
+    for S in subs:                       # references: a fresh instance per subset
+        m, ins, outs = entry['build']()
+        m.response()
+        seed(outs, S)
+        m.sensitivity()
+        ref[S] = _sens_snap(ins)
+
+    def agree(a, b):
+        return all(((x is None and y is None) or close(x, y, tol)) for x, y in zip(a, b))
+    m, ins, outs = entry['build']()
+    m.response()
+    prev = None
+    for step, k in enumerate(pair_covering_sequence(len(subs))):
+        S = subs[k]
+        seed(outs, S)
+        m.sensitivity()
+        if not agree(ref[S], _sens_snap(ins)):
+            fails.append(('the added sensitivities are a function of the current seeds only (an unseeded output counts as zero)',
+                          dict(seeded_outputs=sorted(S), previous_pass_seeded=prev, step=step)))
+            return fails
+        prev = sorted(S)
+        m.reset()
+        if step % 4 == 3:
+            m.response()
+    # without reset: the output seeds are replaced, the input sensitivities accumulate
+    acc = None
+    for step, k in enumerate(pair_covering_sequence(len(subs))[:5]):
+        S = subs[k]
+        fac = float(step + 1)
+        seed(outs, S, fac)
+        m.sensitivity()
+        add = [None if r is None else ('ar', fac * r[1]) for r in ref[S]]
+        acc = add if acc is None else [(y if x is None else x if y is None else ('ar', x[1] + y[1])) for x, y in zip(acc, add)]
+        if not agree(acc, _sens_snap(ins)):
+            fails.append(('sensitivity() calls without reset add up: sum of the contributions of every pass (seeds replaced, None = zero)',
+                          dict(seeded_outputs=sorted(S), step=step)))
+            return fails
+    return fails
+
+
 def protocol_check(entry, pym, rng):
     """C04 clauses on the implementation. Returns list of (predicate, detail) failures."""
     fails = []
@@ -581,13 +931,18 @@ def protocol_check(entry, pym, rng):
             for s, w in zip(outs, seeds):
                 s.sensitivity = _c(w)
             st0 = [snapshot(s.state) for s in ins + outs]
+            sd0 = [snapshot(s.sensitivity) for s in outs]
             m.sensitivity()
             g1 = [snapshot(s.sensitivity) for s in ins]
             if any(not same(a, snapshot(s.state)) for a, s in zip(st0, ins + outs)):
                 fails.append(('sensitivity() changes a state', None))
+            if any(not same(a, snapshot(s.sensitivity)) for a, s in zip(sd0, outs)):
+                fails.append(('sensitivity() writes only sensitivities of the module inputs (seed unchanged)', seed_change_detail(sd0, outs)))
             if twice:
                 m.sensitivity()
                 g2 = [snapshot(s.sensitivity) for s in ins]
+                if any(not same(a, snapshot(s.sensitivity)) for a, s in zip(sd0, outs)):
+                    fails.append(('sensitivity() writes only sensitivities of the module inputs (seed unchanged)', dict(after='second call', **seed_change_detail(sd0, outs))))
                 for a, b in zip(g1, g2):
                     if a is None and b is None:
                         continue
@@ -627,6 +982,8 @@ def protocol_check(entry, pym, rng):
             fails.append(('seed linearity: sens(eps*w) = eps*sens(w) for a tiny factor', dict(eps=eps)))
             break
     run([w1], twice=True)
+    fails.extend(seed_layout_check(entry, pym, w1, g1))
+    fails.extend(seed_support_sequences(entry, pym, rng))
     # seeds are not modified by sensitivity() in a way that changes a repeated call (covered above) and
     # unseeded sensitivity() is a no-op
     m, ins, outs = entry['build']()
